@@ -13,7 +13,7 @@ git checkout -q --detach $(git -C /repo rev-parse HEAD)
 git apply -3 "$patch" 2>/dev/null || { echo "patch does not apply"; git reset -q --hard; exit 2; }
 go build ./... || { echo "patched tree does not build"; git reset -q --hard; exit 2; }
 s=$(date +%s)
-GOSYM_REPLAYDIR=/tmp/evalreplay_$tag timeout 3000 $G -repo $R -prop $p -run "$run" -tier ${TIER:-quick} -evidence /tmp/evalev_${tag}_$p.json > /tmp/mutant2_${tag}_$p.log 2>&1
+GOSYM_REPLAYDIR=/tmp/evalreplay_$tag timeout 3000 $G -repo $R -harness ${HARNESS:-/verif/harness} -workers ${WORKERS:-16} -prop $p -run "$run" -tier ${TIER:-quick} -evidence /tmp/evalev_${tag}_$p.json > /tmp/mutant2_${tag}_$p.log 2>&1
 rc=$?
 e=$(date +%s)
 echo "$p exit=$rc $((e-s))s viol=$(grep -c '^VIOLATION' /tmp/mutant2_${tag}_$p.log) inconcl=$(grep -c '^INCONCLUSIVE' /tmp/mutant2_${tag}_$p.log)"
